@@ -283,5 +283,5 @@ MANIFEST = {
     "text": "exploration: every non-empty body line of thousands (quick) / 110 000 (thorough) generated Acl / AceGroup / AddrGroup texts was accounted for (item in position with the same meaning, documented ignorable line, log record naming the line, or construction error); no valid line was dropped and no item invented",
     "note": "trusted: lib/refsem.py for the meaning of valid lines and the repr()-based matching of log messages; lines labelled invalid by the generator but accepted by the library are counted as items",
 }
-MANIFEST["engine"] += " + atheris (coverage-guided twins of the Hypothesis sub-checks, fuzz/fuzz_hyp.py: 2 jobs x 8 s quick, 8 jobs x 200 s thorough)"
+MANIFEST["engine"] = MANIFEST.get("engine", "hypothesis") + " + atheris (coverage-guided twins of the Hypothesis sub-checks, fuzz/fuzz_hyp.py: 2 jobs x 8 s quick, 8 jobs x 200 s thorough)"
 MANIFEST["technique"] += "; plus coverage-guided fuzzing of the same strategies (atheris/libFuzzer mutates the byte stream Hypothesis decodes into cases, the same oracle runs inside the target, findings are re-judged outside it)"
